@@ -88,6 +88,13 @@ Theorem C02_full_step_rk4 :
 Proof. intros. eapply step_rk4_trace_herm; eassumption. Qed.
 Print Assumptions C02_full_step_rk4.
 
+(* ... and for any number of linear-rk4 passes (Model/Traj.run_rk4) *)
+Theorem C02_full_run_rk4 : forall n m dt maxdt start poisson (ds : list (kdata (T:=R))) (s sf : tstate (T:=R)) atts,
+  run_rk4 ROps n m dt maxdt start poisson ds s = (sf, atts) -> Forall (rk_ok n) ds -> mherm n (prho s) ->
+  mherm n (prho sf) /\ mtrace ROps n (prho sf) = mtrace ROps n (prho s) /\ length atts = length ds.
+Proof. intros n m dt maxdt start poisson ds s sf atts H1 H2 H3. exact (run_rk4_trace_herm n m dt maxdt start poisson ds s sf atts H1 H2 H3). Qed.
+Print Assumptions C02_full_run_rk4.
+
 (* PARTIAL: purity and positivity under 'linear-rk4' hold only to the accuracy of the RK4
    integrator (it is not unitary); not mechanised, measured by the harness.
    Hop attempts: Model/Hop.hop_to_it neither takes nor returns the density matrix (checked on the
